@@ -104,7 +104,7 @@ def run(ctx):
     ctx.assumptions += ["regular-expression matching is outside TLA+: surface forms come from the frozen lexicon",
                         "minute resolution of the reference time (the rules never read seconds)"]
     # R1
-    ctx.mc("MC_Calendar", "MC_Calendar.cfg", timeout=600)
+    ctx.mc("MC_Calendar", "MC_Calendar.cfg" if ctx.quick else "MC_Calendar_400.cfg", timeout=1800)
     ctx.mc("MC_Denote", "MC_Denote_C03_q.cfg" if ctx.quick else "MC_Denote_C03_t.cfg", timeout=3000)
     common.random_rows_stage(ctx, "C03")
     # binding of the calendar and of the productions, every day of the 28-year cycle
